@@ -49,10 +49,18 @@ def run_workers(prop, tier, seed, nshards, watchdog_s, replay=None):
     shutil.rmtree(work, ignore_errors=True)
     os.makedirs(work, exist_ok=True)
     procs = []
+    renv = {}
+    if replay:
+        try:
+            renv = json.load(open(replay)).get('env') or {}
+        except Exception:
+            renv = {}
     for i in range(nshards):
         out = os.path.join(work, 'shard_%d.json' % i)
-        # every fourth worker runs with asserts compiled out (python -O)
-        cmd = [PY] + (['-O'] if i % 4 == 3 and not replay else []) + ['-m', 'rv.worker', prop, '--tier', tier, '--seed', str(seed),
+        # every fourth worker runs with asserts compiled out (python -O); a replay runs in the process
+        # environment of the worker that made the observation
+        opt = bool(renv.get('optimize')) if replay else (i % 4 == 3)
+        cmd = [PY] + (['-O'] if opt else []) + ['-m', 'rv.worker', prop, '--tier', tier, '--seed', str(seed),
                                                                           '--shard', str(i), '--nshards', str(nshards), '--out', out]
         if replay:
             cmd += ['--replay', replay]
@@ -63,6 +71,14 @@ def run_workers(prop, tier, seed, nshards, watchdog_s, replay=None):
         if i % 4 == 2:
             env['LC_ALL'] = 'de_DE.UTF-8'      # a locale this machine does not have
             env['LANG'] = 'de_DE.UTF-8'
+        # string hashing (set / dict-of-str iteration order) differs per worker, reproducibly
+        env['PYTHONHASHSEED'] = str(i)
+        if replay:
+            for k in ('TZ', 'LC_ALL', 'LANG', 'PYTHONHASHSEED'):
+                if renv.get(k) is not None:
+                    env[k] = str(renv[k])
+                elif k in ('LC_ALL', 'LANG') and renv:
+                    env.pop(k, None)
         procs.append((subprocess.Popen(cmd, cwd=VERIF, env=env, stdout=log, stderr=subprocess.STDOUT), out, log))
     results, problems = [], []
     deadline = time.time() + watchdog_s
